@@ -264,6 +264,10 @@ where
             }
 
             if !self.take_byte_if(b'[') {
+                if default {
+                    // a `*` must introduce a variant; on its own it is not a default
+                    return error!(ErrorKind::ExpectedToken('['), self.ptr);
+                }
                 break;
             }
 
